@@ -61,7 +61,7 @@ func runExecution(c *ctx, sc scenario, s schedule, idx int) (string, int) {
 	}
 	e := newExec(dir, cfg, sc.scripts)
 	if sc.giveUp {
-		e.clockStep = time.Second
+		e.clockStep = 2 * time.Second
 	}
 	// names of the setup tables get canonical ids first
 	init := e.snap()
@@ -72,16 +72,27 @@ func runExecution(c *ctx, sc scenario, s schedule, idx int) (string, int) {
 	rendered = append(rendered, "@"+e.renderSnap(init))
 	last := ""
 	nev := 0
+	isFs := func(ev string) bool {
+		p := strings.SplitN(ev, ":", 3)
+		switch p[1] {
+		case "call", "ret", "mem", "crash":
+			return false
+		}
+		return true
+	}
 	e.perStep = func(e *sexec) {
+		// the snapshot goes right behind the fs event of this step
+		sn := e.renderSnap(e.snap())
 		for ; nev < len(e.events); nev++ {
 			rendered = append(rendered, e.events[nev])
-		}
-		sn := e.renderSnap(e.snap())
-		if sn == last {
-			rendered = append(rendered, "@=")
-		} else {
-			rendered = append(rendered, "@"+sn)
-			last = sn
+			if isFs(e.events[nev]) {
+				if sn == last {
+					rendered = append(rendered, "@=")
+				} else {
+					rendered = append(rendered, "@"+sn)
+					last = sn
+				}
+			}
 		}
 	}
 	e.run(s)
@@ -200,9 +211,9 @@ func runStack(c *ctx, which string) error {
 		maxPre = 2
 		nrand = 60
 	}
-	budget := 1500
+	budget := 6000
 	if c.thorough() {
-		budget = 60000
+		budget = 150000
 	}
 	idx := 0
 	hist := map[string]int{}
